@@ -1146,6 +1146,212 @@ static std::map<std::string, long> propDecks(vh::Rng& r, vh::PropLog& log, int n
                 }
             }
         }
+        // ---------------------------------------------------------------- (8) fifth round: Killough (EHYSTR 2-4), gas scanning curve and trapped saturations per cell
+        // What is expected is computed from two *non-hysteretic* decks: the drainage deck (dn) and the deck whose drainage curves
+        // are this deck's imbibition curves (dm: SATNUM := IMBNUM, arrays := the I-arrays).  Laws (Props.C15.killough_krn_scan_start,
+        // _monotone, _bound, killough_trapped_bounds): just below the reversal point krg = krg_d(Sghy) * krg_i(Snmaxd) / krg_d(Snmaxd)
+        // (= the drainage value iff the curves meet at the drainage maximum gas saturation), the scanning curve is monotone and
+        // never above that start value, ends at zero at the trapped saturation; the trapped saturation lies in
+        // [Sncrd, max(Sncrd, Snhy)] and below Sncri where Land's formula is defined (Sncrd <= Sncri < Snmaxd, Snhy <= Snmaxd).
+        {
+            vh::Rng q(sub ^ 0x3C3C);
+            GenCfg g; g.endscale = q.coin(1, 2); g.hyst = 1; g.allowSmallKr = false; g.consistent = true; g.maxKrModel = 4;
+            DeckSpec d = makeDeck(q, g);
+            d.krModel = q.range(2, 4);
+            d.ehystrFlag = q.coin(2, 3) ? "KR" : "BOTH";
+            for (int c = 10; c < 14; ++c) d.maskD[c] = d.maskI[c] = false;          // no three-point vertical scaling: monotone curves
+            const bool meet = q.coin(1, 2);
+            if (meet) {     // imbibition curves = drainage curves except for larger critical saturations: the curves meet at Sgu
+                d.imbnum = d.satnum;
+                if (d.endscale) {
+                    for (int c = 0; c < 8; ++c) d.maskD[c] = d.maskI[c] = true;
+                    for (int c = 8; c < 17; ++c) d.maskI[c] = d.maskD[c];
+                    d.arrI = d.arrD;
+                    for (int c = 0; c < d.ncell; ++c) { d.arrI[c][3] += 0.15 * q.unit(); d.arrI[c][4] += 0.1 * q.unit(); }
+                }
+            }
+            DeckSpec dn = d; dn.hyst = false;
+            DeckSpec dm = dn; dm.satnum = d.imbnum; dm.arrD = d.arrI;
+            // which vertical / Pc scalings are switched on is decided by the *drainage* keywords (the imbibition laws share the
+            // drainage EclEpsConfig): IKRG without KRG is ignored, KRG without IKRG scales the imbibition curve to its own maximum
+            for (int c = 0; c < 17; ++c) dm.maskD[c] = c < 8 ? d.maskI[c] : (d.maskD[c] && d.maskI[c]);
+            Built bn = build(dn, deckText(dn)), bm = build(dm, deckText(dm)), b = build(d, deckText(d));
+            const std::string cfgTag = "EHYSTR " + std::to_string(d.krModel) + " " + d.ehystrFlag + (meet ? " meet " : " ");
+            for (int cell = 0; cell < d.ncell; ++cell) {
+                const auto iD = bn.mgr->oilWaterScaledEpsInfoDrainage(cell), iI = bm.mgr->oilWaterScaledEpsInfoDrainage(cell);
+                const double swl = iD.Swl;
+                const double Sncrd = iD.Sgcr + iD.Swl, Sncri = iI.Sgcr + iI.Swl, Snmaxd = iD.Sgu + iD.Swl;
+                auto& dp = defaultParams(*b.mgr, cell);
+                double sghy = 0, sohy = 0;
+                const int nstep = q.range(2, 6);
+                for (int t = 0; t < nstep; ++t) {
+                    const double sg = (t + 1 == nstep && q.coin() ? 0.3 + 0.7 * q.unit() : q.unit()) * iD.Sgu;
+                    const Sat s{swl, 1 - swl - sg, sg};
+                    b.mgr->updateHysteresis(fluidState(s), cell);
+                    sghy = std::max(sghy, sg); sohy = std::max(sohy, s.so);
+                }
+                const double Snhy = sghy + swl;
+                const std::string at = cfgTag + tag(cell) + "Sghy=" + num(sghy) + " Sncrd=" + num(Sncrd) + " Sncri=" + num(Sncri) + " Snmaxd=" + num(Snmaxd) + " ";
+                const auto& go = dp.gasOilParams();
+                const auto& ow = dp.oilWaterParams();
+                const bool landDomain = Sncrd <= Sncri && Sncri + 1e-9 <= Snmaxd && Snhy <= Snmaxd && Sncrd < Snmaxd;
+                if (landDomain)
+                    chk(go.Sncrt() >= Sncrd - 1e-12 && go.Sncrt() <= std::max(Sncrd, Snhy) + 1e-12 && go.Sncrt() <= Sncri + 1e-9, "deck.killough.trapped-bounds.gas",
+                        at + "Sncrt=" + num(go.Sncrt()) + " Snhy=" + num(Snhy));
+                {
+                    const double SncrdO = iD.Sowcr, SncriO = iI.Sowcr, SnmaxdO = 1.0 - iD.Swl - iD.Sgl;
+                    if (SncrdO <= SncriO && SncriO + 1e-9 <= SnmaxdO && sohy <= SnmaxdO && SncrdO < SnmaxdO)
+                        chk(ow.Sncrt() >= SncrdO - 1e-12 && ow.Sncrt() <= std::max(SncrdO, sohy) + 1e-12 && ow.Sncrt() <= SncriO + 1e-9, "deck.killough.trapped-bounds.oil",
+                            at + "oil-water Sncrd=" + num(SncrdO) + " Sncri=" + num(SncriO) + " Snmaxd=" + num(SnmaxdO) + " Sohy=" + num(sohy) + " Sncrt=" + num(ow.Sncrt()));
+                }
+                if (!(landDomain && Sncri <= Snmaxd - 0.05 && sghy >= iD.Sgcr + 0.02)) continue;
+                const double kdHy = evaluate(*bn.mgr, cell, {swl, 1 - swl - sghy, sghy}).krg;
+                const double kdMax = evaluate(*bn.mgr, cell, {swl, 1 - swl - iD.Sgu, iD.Sgu}).krg;
+                const double sgI = Snmaxd - iI.Swl;
+                const double kiMax = evaluate(*bm.mgr, cell, {iI.Swl, 1 - iI.Swl - sgI, sgI}).krg;
+                if (!(kdHy > 1e-6 && kdMax > 1e-6)) continue;
+                const double start = kdHy * kiMax / kdMax;
+                const double below = sghy - 1e-9;
+                const double scan = evaluate(*b.mgr, cell, {swl, 1 - swl - below, below}).krg;
+                chk(close(scan, start, 1e-6, 1e-7), "deck.killough.scan-start", at + "krg just below the reversal point " + num(scan) + ", krg_d(Sghy)*krg_i(Snmaxd)/krg_d(Snmaxd) = " + num(kdHy) + "*" + num(kiMax) + "/" + num(kdMax) + " = " + num(start));
+                if (std::fabs(kiMax - kdMax) <= 1e-12 * kdMax)
+                    chk(close(scan, kdHy, 1e-6, 1e-7), "deck.killough.scan-continuous", at + "curves meet at Sgu: scanning " + num(scan) + " drainage " + num(kdHy));
+                double prev = 2;
+                for (int t = 0; t <= 40; ++t) {
+                    const double sg = below * (1 - t / 40.0);
+                    const double v = evaluate(*b.mgr, cell, {swl, 1 - swl - sg, sg}).krg;
+                    chk(v <= prev + 1e-14, "deck.killough.scan-monotone", at + "Sg=" + num(sg) + " krg " + num(v) + " > " + num(prev) + " at the larger Sg");
+                    chk(v >= -1e-15 && v <= start * (1 + 1e-6) + 1e-7, "deck.killough.scan-bound", at + "Sg=" + num(sg) + " krg " + num(v) + " start value " + num(start));
+                    prev = v;
+                }
+                const double sgt = go.Sncrt() - swl;
+                if (sgt > 0) chk(std::fabs(evaluate(*b.mgr, cell, {swl, 1 - swl - sgt, sgt}).krg) <= 1e-9, "deck.killough.scan-end", at + "krg at the trapped saturation Sg=" + num(sgt));
+            }
+        }
+        // ---------------------------------------------------------------- (9) fifth round: two-phase decks (oil-water, gas-water) through the manager
+        for (int kind = 0; kind < 2; ++kind) {
+            vh::Rng q(sub ^ (kind ? 0x6B6B : 0x5A5A));
+            GenOpt o; o.strict = q.coin(); o.shared = true;
+            const int nreg = q.range(1, 3), ncell = q.range(3, 6);
+            std::vector<Region> regs;
+            for (int i = 0; i < nreg; ++i) regs.push_back(makeRegion(q, o));
+            std::vector<int> satnum;
+            for (int c = 0; c < ncell; ++c) satnum.push_back(q.range(1, nreg));
+            // per-cell end-points for the scaled variant: SWL SWCR SWU + (ow) SOWCR KRW KRO PCW / (gw) SGL SGCR SGU KRW KRG PCW
+            std::vector<std::array<double, 17>> arr;
+            for (int c = 0; c < ncell; ++c) arr.push_back(randomEndpoints(q, 0));
+            auto text = [&](int variant, bool endscale) {
+                // variant 0: oil-water SWOF / gas-water SWFN+SGFN;  variant 1: oil-water SWFN+SOF2 / gas-water SGWFN
+                std::string s = "RUNSPEC\nDIMENS\n " + std::to_string(ncell) + " 1 1 /\nTABDIMS\n " + std::to_string(nreg) + " /\n" + (kind == 0 ? "OIL\n" : "GAS\n") + "WATER\nMETRIC\n";
+                if (endscale) s += "ENDSCALE\n 'NODIR' 'REVERS' 1 20 /\n";
+                s += "GRID\nDX\n " + std::to_string(ncell) + "*100 /\nDY\n " + std::to_string(ncell) + "*100 /\nDZ\n " + std::to_string(ncell) +
+                     "*10 /\nTOPS\n " + std::to_string(ncell) + "*2000 /\nPORO\n " + std::to_string(ncell) + "*0.2 /\nPERMX\n " + std::to_string(ncell) + "*100 /\nPROPS\n";
+                auto rev = [](std::vector<double> v) { std::reverse(v.begin(), v.end()); return v; };
+                if (kind == 0 && variant == 0) { s += "SWOF\n"; for (auto& R : regs) table(s, {&R.sw, &R.krw, &R.krow, &R.pcow}); }
+                if (kind == 0 && variant == 1) {
+                    s += "SWFN\n"; for (auto& R : regs) table(s, {&R.sw, &R.krw, &R.pcow});
+                    s += "SOF2\n"; for (auto& R : regs) { std::vector<double> so, kr = rev(R.krow); for (double x : rev(R.sw)) so.push_back(1.0 - x); table(s, {&so, &kr}); }
+                }
+                // gas-water: the gas curve is the region's krg read against Sg = 1 - Sw on the water nodes (Sg from 0 to 1 - Swco)
+                if (kind == 1 && variant == 0) {
+                    s += "SWFN\n"; for (auto& R : regs) table(s, {&R.sw, &R.krw, &R.pcow});
+                    s += "SGFN\n"; for (auto& R : regs) { std::vector<double> zero(R.sg.size(), 0.0); table(s, {&R.sg, &R.krg, &zero}); }
+                }
+                if (kind == 1 && variant == 1) {
+                    s += "SGWFN\n"; for (auto& R : regs) { std::vector<double> krgw = rev(R.krw), pc = rev(R.pcow); table(s, {&R.sg, &R.krg, &krgw, &pc}); }
+                }
+                if (endscale) {
+                    auto arrKw = [&](const char* kw, int k) { s += std::string(kw) + "\n"; for (int c = 0; c < ncell; ++c) s += " " + num(arr[c][k]); s += " /\n"; };
+                    arrKw("SWL", 0); arrKw("SWCR", 2); arrKw("SWU", 6); arrKw("KRW", 14); arrKw("PCW", 8);
+                    if (kind == 0) { arrKw("SOWCR", 4); arrKw("KRO", 16); }
+                    else { arrKw("SGL", 1); arrKw("SGCR", 3); arrKw("SGU", 7); arrKw("KRG", 15); }
+                }
+                s += "REGIONS\nSATNUM\n";
+                for (int c = 0; c < ncell; ++c) s += " " + std::to_string(satnum[c]);
+                s += " /\n";
+                return s;
+            };
+            // gas-water SGWFN is on the gas nodes: with shared nodes Sg_j = Sw_j - Swco, i.e. 1 - Sg_j is a water node only when Swco = 0;
+            // the second variant is therefore compared on the curves' own terms: krg(Sg) equal, krw and pc as functions of 1 - Sg
+            const std::string pre = kind == 0 ? "deck.ow." : "deck.gw.";
+            const int NW = kind == 0 ? O : G;
+            DeckSpec dummy;
+            Built b0 = build(dummy, text(0, false));
+            auto ev = [&](Manager& m, int cell, double sw) {
+                std::array<double, 3> kr{}, pc{};
+                const FluidState fs = fluidState(kind == 0 ? Sat{sw, 1 - sw, 0.0} : Sat{sw, 0.0, 1 - sw});
+                MaterialLaw::relativePermeabilities(kr, m.materialLawParams(cell), fs);
+                MaterialLaw::capillaryPressures(pc, m.materialLawParams(cell), fs);
+                return std::array<double, 3>{kr[W], kr[NW], pc[NW] - pc[W]};
+            };
+            for (int cell = 0; cell < ncell; ++cell) {
+                const Region& R = regs[satnum[cell] - 1];
+                const std::string at = tag(cell) + (kind == 0 ? "oil-water " : "gas-water ");
+                for (size_t i = 0; i < R.sw.size(); ++i) {
+                    const auto v = ev(*b0.mgr, cell, R.sw[i]);
+                    chk(close(v[0], R.krw[i], 1e-12, 1e-15), pre + "node.krw", at + "Sw=" + num(R.sw[i]) + " got " + num(v[0]) + " table " + num(R.krw[i]));
+                    chk(close(v[2], R.pcow[i] * 1e5, 1e-12, 1e-9), pre + "node.pc", at + "Sw=" + num(R.sw[i]) + " got " + num(v[2]) + " table " + num(R.pcow[i] * 1e5));
+                    if (kind == 0) chk(close(v[1], R.krow[i], 1e-12, 1e-15), pre + "node.krn", at + "Sw=" + num(R.sw[i]) + " krow " + num(v[1]) + " table " + num(R.krow[i]));
+                }
+                if (kind == 1)
+                    for (size_t j = 0; j < R.sg.size(); ++j) {
+                        const auto v = ev(*b0.mgr, cell, 1.0 - R.sg[j]);
+                        chk(close(v[1], R.krg[j], 1e-12, 1e-15), pre + "node.krn", at + "Sg=" + num(R.sg[j]) + " krg " + num(v[1]) + " table " + num(R.krg[j]));
+                    }
+                double pw = -1, pn = 2, ppc = 1e300;
+                const double nmax = kind == 0 ? R.krow.front() : R.krg.back();
+                for (int t = -4; t <= 132; ++t) {
+                    const double sw = t / 128.0;
+                    const auto v = ev(*b0.mgr, cell, sw);
+                    chk(v[0] >= pw - 1e-15 && v[1] <= pn + 1e-15 && v[2] <= ppc + 1e-9, pre + "monotone", at + "Sw=" + num(sw));
+                    chk(v[0] >= -1e-15 && v[0] <= R.krw.back() * (1 + 1e-14) && v[1] >= -1e-15 && v[1] <= nmax * (1 + 1e-14), pre + "range", at + "Sw=" + num(sw) + " krw " + num(v[0]) + " krn " + num(v[1]));
+                    pw = v[0]; pn = v[1]; ppc = v[2];
+                }
+            }
+            {   // the other keyword family describing the same curves
+                Built b1 = build(dummy, text(1, false));
+                for (int cell = 0; cell < ncell; ++cell) {
+                    const Region& R = regs[satnum[cell] - 1];
+                    for (int t = 0; t <= 64; ++t) {
+                        const double sw = t / 64.0;
+                        const auto u = ev(*b0.mgr, cell, sw), v = ev(*b1.mgr, cell, sw);
+                        const std::string where = tag(cell) + "Sw=" + num(sw);
+                        if (kind == 0) {
+                            chk(same(u[0], v[0], 1e-9, 1e-12) && same(u[2], v[2], 1e-9, 1e-6), pre + "family.krw-pc", where + " SWOF " + num(u[0]) + " SWFN " + num(v[0]));
+                            chk(same(u[1], v[1], 1e-9, 1e-12), pre + "family.krn", where + " SWOF " + num(u[1]) + " SOF2 " + num(v[1]));
+                        } else {
+                            // SGWFN tabulates krw and pc against Sg: the same functions of Sw when Swco = 0 only; krg is the same table
+                            chk(same(u[1], v[1], 1e-9, 1e-12), pre + "family.krn", where + " SGFN " + num(u[1]) + " SGWFN " + num(v[1]));
+                            if (R.sw.front() == R.sg.front()) chk(same(u[0], v[0], 1e-9, 1e-12) && same(u[2], v[2], 1e-9, 1e-6), pre + "family.krw-pc", where);
+                        }
+                    }
+                }
+            }
+            if (kind == 0) {   // end-point scaling (two-point): the scaled end-points carry the table's end-point values (gas-water: design.d/C15.md, fifth round, G1)
+                Built be = build(dummy, text(0, true));
+                Built bi = build(dummy, text(0, false));
+                for (int cell = 0; cell < ncell; ++cell) {
+                    const Region& R = regs[satnum[cell] - 1];
+                    const auto& E = arr[cell];
+                    const std::string at = tag(cell) + (kind == 0 ? "oil-water " : "gas-water ");
+                    const bool pcz = R.pcow.front() == 0.0;
+                    const auto lo = ev(*be.mgr, cell, E[2]), hi = ev(*be.mgr, cell, E[6]), l = ev(*be.mgr, cell, E[0]);
+                    chk(std::fabs(lo[0]) <= 1e-12 && ev(*be.mgr, cell, E[2] + 1e-3)[0] > 0, pre + "endpoint.krw.critical", at + "krw(SWCR=" + num(E[2]) + ") = " + num(lo[0]));
+                    chk(close(hi[0], E[14], 1e-9, 1e-12), pre + "endpoint.krw.max", at + "krw(SWU=" + num(E[6]) + ") = " + num(hi[0]) + " KRW " + num(E[14]));
+                    if (!pcz) chk(close(l[2], E[8] * 1e5, 1e-9, 1e-6), pre + "endpoint.pc.max", at + "pc(SWL=" + num(E[0]) + ") = " + num(l[2]) + " PCW " + num(E[8] * 1e5));
+                    if (kind == 0) {
+                        const auto c = ev(*be.mgr, cell, 1.0 - E[4]);
+                        chk(std::fabs(c[1]) <= 1e-12 && ev(*be.mgr, cell, 1.0 - E[4] - 1e-3)[1] > 0, pre + "endpoint.krn.critical", at + "krow(1-SOWCR=" + num(1.0 - E[4]) + ") = " + num(c[1]));
+                        chk(close(l[1], E[16], 1e-9, 1e-12), pre + "endpoint.krn.max", at + "krow(SWL) = " + num(l[1]) + " KRO " + num(E[16]));
+                    } else {
+                        const auto c = ev(*be.mgr, cell, 1.0 - E[3]), m = ev(*be.mgr, cell, 1.0 - E[7]);
+                        chk(std::fabs(c[1]) <= 1e-12 && ev(*be.mgr, cell, 1.0 - E[3] - 1e-3)[1] > 0, pre + "endpoint.krn.critical", at + "krg(SGCR=" + num(E[3]) + ") = " + num(c[1]));
+                        chk(close(m[1], E[15], 1e-9, 1e-12), pre + "endpoint.krn.max", at + "krg(SGU=" + num(E[7]) + ") = " + num(m[1]) + " KRG " + num(E[15]));
+                    }
+                    (void) bi;
+                }
+            }
+        }
     }
     return chk.byKey;
 }
